@@ -114,8 +114,10 @@ def run_history(seed):
                     plan.set_page(uid, k, actions(first_hostile if k == 0 else rng.random() < 0.7, kind))
             else:
                 plan.set_page(uid, 0, actions(True, kind))
-            specs.append({'uid': uid, 'kind': kind, 'idem': rng.random() < 0.8, 'mode': 'advance'})
-        if nreq == 1 and rng.random() < 0.4:
+            # 'callback': the documented callback-driven paging - a registered callback (errback) of the future itself starts the next page
+            # fetch (repeats the failed one) from inside the dispatch, on whatever thread completes the future
+            specs.append({'uid': uid, 'kind': kind, 'idem': rng.random() < 0.8, 'mode': 'callback' if kind == 'paged' and rng.random() < 0.45 else 'advance'})
+        if nreq == 1 and specs[0]['mode'] == 'advance' and rng.random() < 0.4:
             specs[0]['mode'] = 'block'
         prepared = {}
         for s in specs:
@@ -161,12 +163,30 @@ def run_history(seed):
             starter.start(mon, st)
             mon.deadline = mon.epoch_start[0] + T + R.EPS
             mon.done = False
+            mon.judging = 0           # callback mode: the oldest page fetch whose deadline has not been looked at yet
             count('requests_started')
+            if s['mode'] == 'callback' and mon.future is not None:
+                def fetch_on(mon=mon, uid=uid, repeated=False):
+                    mon.next_epoch(env.net)
+                    plan.epoch_of[uid] = mon.epoch
+                    count('later_page_fetches')
+                    count('page_fetches_started_inside_a_callback' if not repeated else 'page_fetches_repeated_inside_an_errback')
+                    mon.future.start_fetching_next_page()
+
+                def pager_cb(rows, mon=mon, fetch_on=fetch_on):
+                    if not mon.frozen and mon.future.has_more_pages and mon.epoch < 4:
+                        fetch_on()
+
+                def pager_eb(exc, mon=mon, fetch_on=fetch_on):
+                    if not mon.frozen and mon.epoch >= 1 and mon.future.has_more_pages and getattr(mon, 'refetches', 0) < 2 and mon.epoch < 5:
+                        mon.refetches = getattr(mon, 'refetches', 0) + 1
+                        fetch_on(repeated=True)
+                mon.future.add_callbacks(pager_cb, pager_eb)
 
         def judge(mon, hang=False):
             """at (or after) the deadline of the current page fetch, everything runnable has run"""
-            e = mon.epoch
-            outs = mon.outcomes()
+            e = mon.judging if mon.info['mode'] == 'callback' else mon.epoch
+            outs = mon.primary.in_epoch(e)
             plan.resolve(env.net.events)
             arr = [a for a in plan.arrivals if a['uid'] == mon.uid and a['epoch'] == e]
             unanswered = [a for a in arr if a['answered'] is None or (a['answered'][0] == 'sent' and a['answered'][1] > mon.deadline)]
@@ -282,6 +302,15 @@ def run_history(seed):
                     world.advance_to(mon.deadline)
                 world.settle(advance=False)
                 good = judge(mon)
+            if mon.info['mode'] == 'callback':
+                # the page fetches are started by the future's own callbacks; look at each of them at its own deadline
+                if good and mon.epoch > mon.judging:
+                    mon.judging += 1
+                    mon.deadline = mon.epoch_start[mon.judging] + T + R.EPS
+                    mon.key_time = mon.deadline
+                else:
+                    mon.done = True
+                continue
             if not good or not schedule_next_page(mon):
                 mon.done = True
         for h in held(('hold', 'late', 'hold-error')):
@@ -365,5 +394,6 @@ def run(ctx):
     ctx.floor_distinct = 100 if ctx.quick else 1200
     ctx.floor_counters = {"histories": 150, "first_page_deadline_checks": 150, "later_page_deadline_checks": 60, "completed_by_client_timeout": 50,
                           "deadline_checks_with_unanswered_messages": 80, "blocking_result_calls": 20, "later_page_fetches": 60,
-                          "page_fetches_repeated_after_a_failed_fetch": 25, "use_statements": 40,
+                          "page_fetches_repeated_after_a_failed_fetch": 25, "page_fetches_started_inside_a_callback": 60,
+                          "page_fetches_repeated_inside_an_errback": 10, "use_statements": 40,
                           "followup_use_messages_unanswered_at_deadline": 15, "ddl_statements_with_disagreeing_nodes": 10}
